@@ -8,7 +8,12 @@ from . import models
 TYPE_PALETTE = ["i32", "u64", "alloc::string::String", "alloc::vec::Vec<u8>", "&str", "treedrv::nested::Alpha",
                 "treedrv::nested::inner::Beta<u8>", "core::option::Option<treedrv::nested::Alpha>", "[u8; 4]",
                 "std::collections::hash::map::HashMap<alloc::string::String, u32>",
-                "treedrv::nested::inner::Beta<treedrv::nested::Alpha>", "u8", "alloc::boxed::Box<str>", "()"]
+                "treedrv::nested::inner::Beta<treedrv::nested::Alpha>", "u8", "alloc::boxed::Box<str>", "()",
+                # generic parameters that are generic themselves (more than one '<' in the name)
+                "alloc::vec::Vec<alloc::vec::Vec<u8>>", "core::option::Option<alloc::vec::Vec<u8>>",
+                "core::result::Result<alloc::vec::Vec<u8>, alloc::string::String>",
+                "treedrv::nested::inner::Beta<core::option::Option<treedrv::nested::Alpha>>",
+                "core::option::Option<alloc::vec::Vec<treedrv::nested::inner::Beta<u8>>>"]
 PARALLELISM = 16      # replaced at start-up by what std::thread::available_parallelism() says on this machine (treecheck.init_parallelism)
 DEFAULT_SAMPLE_COUNT = 100
 
@@ -413,6 +418,48 @@ def gen_spec(rng, profile=None):
             sp.clock = (10 ** 9, 1, 1, 1000)
             sp.clock_os = False
             sp.wide_counts = True
+    if (rng.random() < profile.get("p_minmax_scenario", 0.0) and sp.clock[0] == 10 ** 9 and not getattr(sp, "wide_counts", False)):
+        # a floor and a ceiling set at DIFFERENT levels, the ceiling below the floor, and a third, higher-priority level that
+        # raises the ceiling again: the floor must come back into force (options resolve field by field, partial merges of
+        # two levels must not bake one field into another)
+        cands = [b for b in items if isinstance(b, Bench) and b.kind == "plain" and len(b.modpath) >= 2]
+        if cands:
+            b = rng.choice(cands)
+            m = list(b.modpath)
+            groups = {tuple(g.modpath + [g.raw]): g for g in items if isinstance(g, Group)}
+
+            def group_at(path):
+                g = groups.get(tuple(path))
+                if g is None:
+                    g = Group(path[:-1], path[-1], path[-1].replace("r#", ""), rng.choice(files), rng.randrange(1, 60), 1, {})
+                    items.append(g)
+                    groups[tuple(path)] = g
+                g.opts = dict(g.opts or {})
+                return g
+
+            X, Y, Z = 3000, rng.choice([100, 300]), rng.choice([2000, 6000])
+            b.beh = {"cost": 100, "step": 0, "mod": 1, "mode": 0}
+            b.opts = {k: v for k, v in (b.opts or {}).items() if k.startswith("c")}
+            b.opts.update({"sc": 2, "ss": 1})
+            for k in range(2, len(m) + 1):
+                g = groups.get(tuple(m[:k]))
+                if g is not None and g.opts:
+                    for f in ("mt", "xt", "sc", "ss"):
+                        g.opts.pop(f, None)
+            if len(m) >= 3 and rng.random() < 0.6:
+                k = rng.randrange(2, len(m))
+                lo, hi = (("mt", X), ("xt", Y)) if rng.random() < 0.5 else (("xt", Y), ("mt", X))
+                group_at(m[:k]).opts[lo[0]] = lo[1]
+                group_at(m[:rng.randrange(k + 1, len(m) + 1)]).opts[hi[0]] = hi[1]
+                b.opts["xt"] = Z
+            else:
+                g = group_at(m[:rng.randrange(2, len(m) + 1)])
+                if rng.random() < 0.5:
+                    g.opts["mt"], b.opts["xt"] = X, Y
+                else:
+                    g.opts["xt"], b.opts["mt"] = Y, X
+                sp.minmax_runner_xt = Z
+            sp.clock_os = False
     if rng.random() < profile.get("p_budget_scenario", 0.0):
         # a benchmark whose number of rounds depends strongly on HOW its time budget is accounted: expensive input generation
         # outside the timed section, cheap calls, a max_time between the two accountings, skip_ext_time set by attribute
